@@ -39,7 +39,14 @@ func caseGen() *rapid.Generator[Case] {
 		return gen.Str(gen.StringOf(tokens, 0, 4).Draw(t, label))
 	}
 	return rapid.Custom(func(t *rapid.T) Case {
+		var cp *gen.Script
+		if rapid.IntRange(0, 4).Draw(t, "copy?") == 0 {
+			s2 := sg.Draw(t, "script2")
+			s2.Creator = "core"
+			cp = &s2
+		}
 		return Case{
+			CopyTo:   cp,
 			Script:   sg.Draw(t, "script"),
 			Id:       opt(t, "id"),
 			Class:    opt(t, "class"),
